@@ -179,22 +179,6 @@ def floatOps (tbl : List (UInt64 × Bytes)) : FloatOps Float where
     if f.isNaN then ((tbl.find? fun e => (Float.ofBits e.1).isNaN).map (·.2)).getD (Bytes.ofString "NaN")
     else (tbl.lookup f.toBits).getD (Bytes.ofString "?")
 
-/-- executable form of the hypothesis `subRowsNonNil` of the refinement theorem, over the row
-    contexts a case provides (`rows t` = the contexts of entity type `t`) -/
-def subRowsNonNilB {T C : Type} (sg : Sigma T) (w : World C Float) (rows : T → List C) : T → U Float → Bool
-  | t, .setFnSub _ n q _ _ =>
-    ((rows t).all fun c => (w.subRows c n).all fun c' => !w.nilRow c') &&
-      (match sg.setTypes t n with
-       | some t' => subRowsNonNilB sg w rows t' q
-       | none => true)
-  | t, .cmp _ l _ => subRowsNonNilB sg w rows t l
-  | t, .inArr l _ => subRowsNonNilB sg w rows t l
-  | t, .between l _ _ => subRowsNonNilB sg w rows t l
-  | t, .notE e => subRowsNonNilB sg w rows t e
-  | t, .unot e => subRowsNonNilB sg w rows t e
-  | t, .logic _ l r => subRowsNonNilB sg w rows t l && subRowsNonNilB sg w rows t r
-  | _, _ => true
-
 /-! ### `m` cases: an in-memory ast.Symbols -/
 
 structure MSym where
@@ -357,11 +341,8 @@ def bStepModel (c : BCase) : String :=
     | _ => "err"
 
 def bStepSpec (c : BCase) : String :=
-  let sg := dbSigma c.db.defs
   if wellTyped (dbSpecSigma c.db.defs) c.fo c.root c.f then
     "wt " ++ idsText (specQuery c.db c.fo c.root c.f) ++ " n=" ++ toString (storeIds c.db c.root).length ++
-      (if subRowsNonNilB sg (modelWorld c.db) (fun t => (storeIds c.db t).map fun id => (t, some id)) c.root c.f
-       then "" else " H:nilrow") ++
       (if subQueriesPlain c.db.defs c.root c.f then "" else " H:subtail")
   else "ill n=" ++ toString (storeIds c.db c.root).length
 
